@@ -194,3 +194,262 @@ def shape_label(shape) -> str:
     if not shape:
         return "-"
     return ",".join(f"{'.'.join(k)}={'X' if v is None else v}" for k, v in shape.items() if isinstance(k, tuple))
+
+
+def _cap_of(cx):
+    p = cx.args["inout_buffer_size_bytes"]
+    mem = cx.old[p.region]
+    if isinstance(mem, ec.IntCellMem):
+        return mem.term
+    bytes_ = [mem.read(str(i)) for i in range(8)]
+    return f"(bv2nat (concat {' '.join(reversed(bytes_))}))"
+
+
+def deserialize_contract(binder: spec.Binder, t, null_param: typing.Optional[str] = None, cap_case: typing.Any = None) -> CContract:
+    """cap_case: None (any capacity, symbolic) | int k (capacity == k) | ("ge", k) (capacity >= k)"""
+    name = spec.c_type_name(t) + "_deserialize_"
+
+    def setup(ex, args):
+        ec.LOWER.clear()
+        if cap_case is None or null_param:
+            return
+        p = args["inout_buffer_size_bytes"]
+        r = ex.regions[p.region]
+        if isinstance(cap_case, int):
+            r.mem = ec.IntCellMem(str(cap_case))
+            ex.entry_mems[r.name] = r.mem
+        else:
+            ex.assume(app(">=", r.mem.term, str(cap_case[1])))
+            ec.LOWER.clear()
+            ec.LOWER[r.mem.term] = cap_case[1]
+
+    def requires(cx):
+        if null_param:
+            return []
+        buf = cx.args["buffer"]
+        cap = _cap_of(cx)
+        return [app("<=", "0", buf.off), app("<=", app("+", buf.off, cap), cx.length("buffer")), app("<", app("*", "8", cap), str(2 ** 60)),
+                app("<", app("*", "8", app("+", buf.off, cap)), str(2 ** 60))]
+
+    def ensures(cx):
+        if null_param:
+            return {"result": ("B", bvlit(-spec.ERR_INVALID_ARGUMENT, 8))}
+        ex = cx.ex
+        buf, out, io = cx.args["buffer"], cx.args["out_obj"], cx.args["inout_buffer_size_bytes"]
+        cap = _cap_of(cx)
+        limit = cap if buf.off == "0" else ex.name_term(app("+", buf.off, cap), "Int", "limit")
+        base = 0 if buf.off == "0" else (8 * ec.lit_of(buf.off) if ec.lit_of(buf.off) is not None else ex.name_term(app("*", "8", buf.off), "Int", "basebit"))
+        dec = spec.WireDecoder(ex, binder, cx.old[buf.region], K14.zx_read)
+        d = dec.decode(t, spec.Obj(out.region, out.path), base, limit)
+        mine = cx is getattr(ex, "cx", None)
+        if d.error is not None:
+            # representation error: the object may be partially written; nothing else may be touched
+            skip = tuple(rid for rid, (root, path, ct) in ex.leaf_info.items() if root == out.region)
+            return {"result": ("B", bvlit(-d.error, 8)), "skip_frame": skip}
+        end = d.end
+        cap_bits = ec.simp_int(app("*", "8", cap))
+        fits = ec.simp_int(app("<=", str(end), cap_bits))
+        if fits == "true" or (fits != "false" and ex.implied(fits)):
+            consumed_bits = str(end)
+        elif fits == "false" or ex.implied(Not(fits)):
+            consumed_bits = cap_bits
+        else:
+            consumed_bits = imin(str(end), cap_bits)
+        consumed = ec.simp_int(app("div", consumed_bits, "8"))
+        q8, r8 = ec.divmod8(consumed_bits)
+        if r8 is not None:
+            consumed = q8
+        post = {"result": ("B", bvlit(0, 8)), "extra": [], "mem": {}}
+        leaves = []
+        for o, ct, idx, (kind, term) in d.values:
+            el = ct.elem if ct.kind == "array" else ct
+            r = ex.subregion(o.root, o.path, ct)
+            leaves.append(r.name)
+            if mine:
+                got = ex.load(PVal(ec.CT("ptr", elem=el), r.name, str(idx * el.size)), el)
+                nm = ".".join(o.path) + (f"[{idx}]" if ct.kind == "array" else "")
+                if kind == "bits":
+                    g = got.bits if isinstance(got, ec.FVal) else ex.to_bv(got).t
+                    if el.is_bool:
+                        post["extra"].append((f"value:{nm}", Eq(g, term)))
+                    else:
+                        post["extra"].append((f"value:{nm}", Eq(g, term)))
+                elif kind == "int":
+                    post["extra"].append((f"value:{nm}", Eq(ex.to_int(got).t, term)))
+                elif kind == "f16":
+                    hv = f"((_ to_fp 5 11) {term})"
+                    post["extra"].append((f"value:{nm}", And(Implies(Not(f"(fp.isNaN {hv})"), Eq(got.t, f"((_ to_fp 8 24) RNE {hv})")), Implies(f"(fp.isNaN {hv})", f"(fp.isNaN {got.t})"))))
+            else:
+                # callee: the decoded value becomes the content of the leaf
+                if kind == "f16":
+                    hv = f"((_ to_fp 5 11) {term})"
+                    fb = ex.fresh("(_ BitVec 32)", "f16leaf")
+                    ex.assume(And(Implies(Not(f"(fp.isNaN {hv})"), Eq(f"((_ to_fp 8 24) {fb})", f"((_ to_fp 8 24) RNE {hv})")), Implies(f"(fp.isNaN {hv})", f"(fp.isNaN ((_ to_fp 8 24) {fb}))")))
+                    bits, w = fb, 32
+                elif kind == "int":
+                    bits, w = bvlit(int(term), 8 * el.size), 8 * el.size
+                else:
+                    bits, w = term, 8 * el.size
+                mem = post["mem"].get(r.name, r.mem)
+                for bi in range(el.size):
+                    mem = StoreMem(mem, str(idx * el.size + bi), ex.name_term(f"((_ extract {8 * bi + 7} {8 * bi}) {bits})", "(_ BitVec 8)", "lb"))
+                post["mem"][r.name] = mem
+        for o, ct, bit_idx, cond in d.bits:
+            r = ex.subregion(o.root, o.path, ct)
+            leaves.append(r.name)
+            if mine:
+                byte = r.mem.read(str(bit_idx // 8))
+                post["extra"].append((f"value:{'.'.join(o.path)}[bit {bit_idx}]", Eq(f"((_ extract {bit_idx % 8} {bit_idx % 8}) {byte})", Ite(cond, "#b1", "#b0"))))
+            else:
+                mem = post["mem"].get(r.name, r.mem)
+                old = mem.read(str(bit_idx // 8))
+                b = bit_idx % 8
+                parts = []
+                if b < 7:
+                    parts.append(f"((_ extract 7 {b + 1}) {old})")
+                parts.append(Ite(cond, "#b1", "#b0"))
+                if b > 0:
+                    parts.append(f"((_ extract {b - 1} 0) {old})")
+                nb = parts[0] if len(parts) == 1 else "(concat " + " ".join(parts) + ")"
+                post["mem"][r.name] = StoreMem(mem, str(bit_idx // 8), ex.name_term(nb, "(_ BitVec 8)", "pb"))
+        if mine:
+            got_sz = ex.load(PVal(io.ct, io.region, io.off), ec.CT("int", 64, False, index=True))
+            post["extra"].append(("consumed-size", Eq(ex.to_int(got_sz).t, consumed)))
+            post["extra"].append(("consumed-never-exceeds-supplied", app("<=", ex.to_int(got_sz).t, cap)))
+            # the object's leaves may change (that is the point); unobservable parts (elements beyond count, inactive
+            # union members, padding bits of bit-packed arrays) are not constrained; everything else is framed
+            post["skip_frame"] = tuple(rid for rid, (root, path, ct) in ex.leaf_info.items() if root == out.region) + (io.region,)
+        else:
+            post["mem"][io.region] = ec.IntCellMem(ex.name_term(consumed, "Int", "consumed"))
+        return post
+
+    lab = ("null:" + null_param) if null_param else ("" if cap_case is None else (f"cap={cap_case}" if isinstance(cap_case, int) else f"cap>={cap_case[1]}"))
+    return CContract(name, requires, ensures, setup=setup, null_params={null_param} if null_param else set(), scalar_ptr_params={"inout_buffer_size_bytes"},
+                     variant_label=lab)
+
+
+def has_nested_composite(t) -> bool:
+    inner = t.inner_type if isinstance(t, pydsdl.DelimitedType) else t
+    for f in inner.fields_except_padding:
+        dt = f.data_type
+        while isinstance(dt, pydsdl.ArrayType):
+            dt = dt.element_type
+        if isinstance(dt, pydsdl.CompositeType):
+            return True
+    return False
+
+
+def imin(a, b):
+    return Ite(app("<=", a, b), a, b)
+
+
+# ------------------------------------------------------------------------------------------------------------------
+# drivers shared by C01 / C02 / C04
+# ------------------------------------------------------------------------------------------------------------------
+_STATE: typing.Dict[str, typing.Any] = {}
+
+
+def _task(args):
+    kind, tname, variant = args
+    eng, binder, by = _STATE["eng"], _STATE["binder"], _STATE["by"]
+    t = by[tname]
+    eng.session = smt.Z3Session()
+    ec.LOWER.clear()
+    t0 = time.time()
+    try:
+        if kind == "ser":
+            c = serialize_contract(binder, t, variant[1], variant[0]) if variant[0] else serialize_contract(binder, t, variant[1])
+        else:
+            c = deserialize_contract(binder, t, variant[0], variant[1])
+        saved = eng.contracts.get(c.name)
+        eng.contracts[c.name] = c
+        try:
+            obs, info = eng.verify(c.name)
+        finally:
+            if saved is not None:
+                eng.contracts[c.name] = saved
+        label = c.variant_label or "-"
+        for o in obs:
+            o.name = o.name.replace("#", f"[{label}]#", 1)
+            o.meta["type"] = tname
+        info["gen_s"] = round(time.time() - t0, 2)
+        return (kind, tname, label, obs, info, None)
+    except (ec.COutOfSubset, ec.CBindingError) as ex:
+        return (kind, tname, str(variant), [], {}, f"{type(ex).__name__}: {ex}")
+    finally:
+        eng.session.close()
+
+
+def collect(run, options: dict, label: str, kinds: typing.Tuple[str, ...]):
+    """render the corpus under `options`, build the engine, generate obligations for serializers ('ser') and/or
+    deserializers ('des') of every corpus type (all shapes / null-argument variants) in parallel"""
+    work = pathlib.Path(tempfile.mkdtemp(prefix="vk_pp_"))
+    try:
+        types = flatten_types(render_corpus(work, options))
+        eng, binder = build_engine(work, types)
+    finally:
+        _STATE["workdir"] = work
+    by = {spec.c_type_name(t): t for t in types}
+    for tt in types:
+        eng.contracts[spec.c_type_name(tt) + "_serialize_"] = serialize_contract(binder, tt, None)
+        eng.contracts[spec.c_type_name(tt) + "_deserialize_"] = deserialize_contract(binder, tt)
+    _STATE.update(eng=eng, binder=binder, by=by)
+    tasks = []
+    for nm, t in sorted(by.items()):
+        if "ser" in kinds:
+            for sh in spec.enumerate_shapes(binder, t):
+                tasks.append(("ser", nm, (None, sh)))
+            for p in ("obj", "buffer", "inout_buffer_size_bytes"):
+                tasks.append(("ser", nm, (p, None)))
+        if "des" in kinds:
+            tasks.append(("des", nm, (None, None)))
+            for p in ("out_obj", "inout_buffer_size_bytes"):
+                tasks.append(("des", nm, (p, None)))
+    with multiprocessing.get_context("fork").Pool(14) as pool:
+        results = pool.map(_task, tasks, chunksize=1)
+    obs = []
+    for kind, tname, vlabel, o, info, err in results:
+        fn = f"{tname}_{'serialize' if kind == 'ser' else 'deserialize'}_"
+        if err:
+            run.undecide(f"[{label}] {fn} ({vlabel}): {err}")
+            continue
+        if info.get("exits", 0) == 0:
+            run.undecide(f"[{label}] {fn} ({vlabel}): no path reaches a function exit (vacuity guard)")
+        run.add_function(f"[{label}] {fn}")
+        pf = run.notes.setdefault("per_function", {}).setdefault(f"[{label}] {fn}", {"variants": 0, "paths": 0, "obligations": 0, "gen_s": 0.0})
+        pf["variants"] += 1
+        pf["paths"] += info.get("paths", 0)
+        pf["obligations"] += len(o)
+        pf["gen_s"] = round(pf["gen_s"] + info.get("gen_s", 0), 2)
+        for x in o:
+            x.name = f"{label}:{x.name}"
+        obs.extend(o)
+    run.notes.setdefault("programs", {})[label] = sorted(by)
+    return obs
+
+
+def report_failures(run, results, label):
+    """failed obligations: try to replay on the real generated code (native harness), else report with the model"""
+    from vk import report as R
+    seen = set()
+    for r in results:
+        if r.ok:
+            continue
+        base = r.ob.name.split("/p")[0]
+        if base in seen:
+            continue
+        seen.add(base)
+        if r.status != "sat":
+            continue  # unknown: stays undecided (handled by Run.finish)
+        w = None
+        try:
+            from contracts import pp_ref
+            w = pp_ref.witness(r.ob.function, r.ob.meta.get("type"), _STATE.get("workdir"), r.model)
+        except Exception as ex:  # the replay harness must never become a verdict
+            w = {"harness_error": f"{type(ex).__name__}: {ex}"}
+        if w and not w.get("harness_error"):
+            run.fail(R.Failure(base, r.ob.kind, f"{r.ob.name} not discharged (sat); real generated code on {w['input']}: {w['why']}",
+                               {"witness": w, "model": r.model, "smt2": r.ob.smt2()}, True))
+        else:
+            run.fail(R.Failure(base, r.ob.kind, f"{r.ob.name} not discharged (sat); model {dict(list(r.model.items())[:8])}",
+                               {"model": r.model, "replay_harness": w, "smt2": r.ob.smt2()}, False))
